@@ -490,6 +490,38 @@ def fam_single(ctx, ld, L, okL, siteL, tier, seed):
             contains_case(base + '/contains/off=%s/at=%s/vec' % (hn, ln_), X, False, 'off the line', 'vec',
                           magnitude(defnorms + [X], fb))
 
+    # ---- contains, 3xN form with N = 1..5 distinct columns, one of them (at every position) off the line:
+    #      element i of the answer is the single-point answer for column i
+    onl = [ld.pref + inward(ld.pref, lam * ld.m * ld.uref) for lam in (0.0, 0.4, -0.7, 1.3, -1.9)]
+    offp = onl[1] + inward(onl[1], 0.5 * ld.m * n_)
+    if all(indom(X) for X in onl + [offp]) and ld.m > 0:
+        for N in range(1, 6):
+            for j in [None] + list(range(N)):
+                cid = base + '/contains/3xN/N=%d/off=%s' % (N, j)
+                if not ctx.want(cid):
+                    continue
+                cols = [X.copy() for X in onl[:N]]
+                if j is not None:
+                    cols[j] = offp.copy()
+                A_ = np.stack(cols, axis=1)
+                ctx.case(cid, key=('contains3xN', ld.ctor, ld.form, ld.phi, ld.P.tobytes(), ld.d.tobytes(), N, j), trivial=False)
+                p = dict(P0, method='contains', what='columns', argform='3x%d' % N, N=N)
+                ok, val = call(L.contains, A_.copy())
+                oks, singles = call(lambda: [asbool(L.contains(c.copy())) for c in cols])
+                if not oks:
+                    continue
+                if not ok:
+                    ctx.fail(cid, 'Plucker.contains', 'raises:' + type(val).__name__, p, 'contains(3x%d array) raised %r' % (N, val))
+                    continue
+                try:
+                    got = [asbool(t) for t in val]
+                except TypeError:
+                    got = [asbool(val)] if N == 1 else None       # a 3x1 array is also a 3-vector
+                if got is None or len(got) != N:
+                    ctx.fail(cid, 'Plucker.contains', 'returns:' + type(val).__name__, p, 'contains(3x%d array) returned %r' % (N, val))
+                elif got != singles:
+                    ctx.fail(cid, 'Plucker.contains', 'mismatch', p, 'contains(3x%d array) = %r but the single-point answers for its columns are %r' % (N, got, singles))
+
     # ---- point(lambda), and contains(point(lambda))
     for lname, lam in LAMBDAS:
         cid = base + '/point/lam=%s' % lname
